@@ -21,8 +21,12 @@ LEVEL_TEXT = ("Coq theorems: over R, Haldane and Kosambi map 0 to 0, [0,inf) int
               "the map's own markers (also proved bit-for-bit in binary64 through Flocq for all finite positions and knot gaps <= 2^53), "
               "equals the chord between the flanking markers, continues the end chords outside, is order-preserving for congruent maps, is "
               "missing (NaN) off the map, and crossover probabilities are the map function of consecutive interpolated gaps with "
-              "1/2 at chromosome starts; two refutations (interp_gmap copies stale group metadata; remove_discrepancies keeps the old spline) "
-              "with their guarded versions. The model is tied to the code by evaluating it inside Coq on generated maps/queries "
+              "1/2 at chromosome starts; the map returned by interp_gmap carries no grouping of its source and the grouping it computes "
+              "on first use describes its own markers (every query); after remove_discrepancies/select/remove the reduced map is well-formed "
+              "and interpolation is at once exact at the remaining markers, on the chord between consecutive remaining markers and "
+              "order-preserving once congruent (every well-formed map keeping two markers per chromosome); two regression witnesses about "
+              "the former code (old_interp_gmap copied stale group metadata; old_rd_interp_pos kept the old spline), both defects repaired. "
+              "The model is tied to the code by evaluating it inside Coq on generated maps/queries "
               "against the implementation's outputs: exact rationals on dyadic grids, bit-for-bit binary64 (PrimFloat model of "
               "scipy's interp1d arithmetic) everywhere, and Coq-Interval enclosures (proved sound) within 2^-45 for map-function values")
 LEVEL_NOTE = ("trusted: Coq kernel + vm_compute, PrimFloat primitives, classical reals, Coq-Interval's verified interval arithmetic; "
@@ -36,8 +40,9 @@ RULE = ("case kinds: mapfn (a vector of distances incl. 0, denormals, grid point
         "rows shuffled + a second shuffle, congruent or not, ties in genetic position, dyadic 'grid' maps with power-of-two physical gaps "
         "or generic maps, query markers on/off the map, at knots, between knots and outside the range, python slices for the distance "
         "methods, genotype matrix unphased|phased with Haldane|Kosambi; every map is also built from a second shuffle and with auto_group=False), "
-        "igmap (interp_gmap result re-used as a map), rmdisc (non-congruent grid map after remove_discrepancies, queried at and between its "
-        "remaining markers, before and after build_spline); non-trivial = "
+        "igmap (interp_gmap result re-used as a map: dump before and after its first use, congruence, interpolation), rmdisc (non-congruent "
+        "grid map reduced by remove_discrepancies and, separately, by remove(flagged indices); queried at removed markers, at and between "
+        "remaining markers, outside and on an absent chromosome, right after the reduction and after build_spline); non-trivial = "
         "gmap with >= 2 chromosomes, a query marker strictly between two knots, one outside the knot range and one on an absent "
         "chromosome, or mapfn with >= 6 finite distances; distinct by SHA-256 of the case")
 TRUSTED = ["scipy interp1d(kind='linear', fill_value='extrapolate') evaluates _call_linear as modelled (compared bit for bit on every case)",
@@ -154,25 +159,27 @@ def _mapfn_case(rng):
         else: rs.append(rng.choice([5e-324, 1e-300, 2.0 ** -60, 1e-12]))
     return {"kind": "mapfn", "fn": fn, "d": [fx(v) for v in sorted(ds)], "r": [fx(v) for v in sorted(set(rs))]}
 
-def _igmap_case(rng):
-    c = _gmap_case(rng, grid=True)
+def _igmap_case(rng, cls=None):
+    c = _gmap_case(rng, grid=True, cls=cls)
     return {"kind": "igmap", "cls": c["cls"], "rows": c["rows"], "query": c["query"], "stop": c.get("stop"),
             "units": "M"}
 
-def _rmdisc_case(rng):
+def _rmdisc_case(rng, cls=None):
     """a non-congruent grid map; after remove_discrepancies the map is queried at and between its remaining markers"""
     while True:
-        c = _gmap_case(rng, grid=True)
+        c = _gmap_case(rng, grid=True, cls=cls)
         rows = sorted([(r[0], r[1], xf(r[2])) for r in c["rows"]])
         keep = [r for i, r in enumerate(rows) if i == 0 or rows[i - 1][0] != r[0] or rows[i - 1][2] <= r[2]]
         cnt = {}
         for r in keep: cnt[r[0]] = cnt.get(r[0], 0) + 1
         if len(keep) < len(rows) and all(v >= 2 for v in cnt.values()): break      # something is removed, >= 2 markers stay
-    q = []
+    q = [[r[0], r[1]] for r in rows if r not in keep][:3]          # positions of removed markers
     for a, b in zip(keep, keep[1:]):
         if a[0] == b[0]:
             q.append([a[0], a[1]]); q.append([a[0], (a[1] + b[1]) // 2]); q.append([b[0], b[1]])
-    return {"kind": "rmdisc", "cls": c["cls"], "units": "M", "grid": True, "rows": c["rows"], "query": q[:12],
+    absent = [c for c in range(-3, 14) if c not in cnt]
+    q = q[:10] + [[keep[0][0], keep[0][1] - 3], [rng.choice(absent), 7]]
+    return {"kind": "rmdisc", "cls": c["cls"], "units": "M", "grid": True, "rows": c["rows"], "query": q,
             "stop": c.get("stop"), "name": c.get("name"), "fncode": c.get("fncode")}
 
 def gen_cases(rng, tier):
@@ -188,8 +195,8 @@ def gen_cases(rng, tier):
         for grid in (True, False):
             cases.append(_gmap_case(rng, grid, cls))
     for _ in range(ng): cases.append(_gmap_case(rng))
-    for _ in range(ni): cases.append(_igmap_case(rng))
-    for _ in range(ni): cases.append(_rmdisc_case(rng))
+    for i in range(ni): cases.append(_igmap_case(rng, ("std", "ext")[i % 2]))          # both classes, alternating
+    for i in range(ni): cases.append(_rmdisc_case(rng, ("std", "ext")[i % 2]))
     return cases
 
 # ----------------------------------------------------------------------------------------------- implementation driver
@@ -317,7 +324,7 @@ def _run_igmap(case):
     with warnings.catch_warnings():
         warnings.simplefilter("ignore")
         out["q_gen"] = fxl(g.interp_genpos(qc, qp))
-        m = g.interp_gmap(qc, qp) if cls == "std" else g.interp_gmap(qc, qp, qp + 1)
+        m = g.interp_gmap(qc.copy(), qp.copy()) if cls == "std" else g.interp_gmap(qc.copy(), qp.copy(), qp + 1)
         out["igmap"] = _dump(m, cls)
         try:
             out["re"] = fxl(m.interp_genpos(qc, qp))
@@ -327,24 +334,48 @@ def _run_igmap(case):
             out["re_congruent"] = bool(m.is_congruent())
         except Exception as e:
             out["re_congruent"] = {"exc": type(e).__name__, "msg": str(e)[:200]}
+        out["igmap_after"] = _dump(m, cls)          # the first use groups (sorts) the new map
+        out["source_after"] = _dump(g, cls)
+        out["source_q_gen_after"] = fxl(g.interp_genpos(qc, qp))
     return out
 
-def _run_rmdisc(case):
+def _rmdisc_route(case, route):
+    """reduce a non-congruent map: 'rd' = remove_discrepancies() (select(mask)); 'rm' = remove(indices of the flagged markers)"""
     cls = case["cls"]
     g, _ = _mk_map(cls, case["rows"], case["units"], case.get("stop"), case.get("name"), case.get("fncode"))
     qc = numpy.array([q[0] for q in case["query"]], dtype="int64"); qp = numpy.array([q[1] for q in case["query"]], dtype="int64")
     out = {}
-    g.remove_discrepancies()
+    if route == "rd": g.remove_discrepancies()
+    else: g.remove(numpy.flatnonzero(~g.congruence()))
     out["map"] = _dump(g, cls)
     with warnings.catch_warnings(record=True) as w:
         warnings.simplefilter("always")
         out["is_congruent"] = bool(g.is_congruent())
-        out["stale"] = fxl(g.interp_genpos(qc, qp))
+        out["direct"] = fxl(g.interp_genpos(qc, qp))
         out["warned"] = any("congruent" in str(x.message) for x in w)
     with warnings.catch_warnings():
         warnings.simplefilter("ignore")
+        out["own"] = fxl(g.interp_genpos(g.vrnt_chrgrp, g.vrnt_phypos))
+        out["spline_keys"] = sorted(int(k) for k in g.spline.keys())
         g.build_spline()
         out["rebuilt"] = fxl(g.interp_genpos(qc, qp))
+    return out
+
+def _run_rmdisc(case):
+    out = _rmdisc_route(case, "rd")
+    out["via_remove"] = _rmdisc_route(case, "rm")
+    # the same markers removed from a map that was never grouped (auto_group=False): arrays stay unsorted, the spline is rebuilt
+    cls = case["cls"]
+    kept = set(zip(out["map"]["chr"], out["map"]["phy"]))
+    idx = [i for i, r in enumerate(case["rows"]) if (r[0], r[1]) not in kept]
+    qc = numpy.array([q[0] for q in case["query"]], dtype="int64"); qp = numpy.array([q[1] for q in case["query"]], dtype="int64")
+    with warnings.catch_warnings():
+        warnings.simplefilter("ignore")
+        g, _ = _mk_map(cls, case["rows"], case["units"], case.get("stop"), case.get("name"), case.get("fncode"), auto_group=False)
+        g.remove(idx)
+        d = _dump(g, cls)
+        out["ungrouped"] = {"grouped": d["grouped"], "rows": [list(t) for t in zip(d["chr"], d["phy"], d["gen"])],
+                            "direct": fxl(g.interp_genpos(qc, qp))}
     return out
 
 # ----------------------------------------------------------------------------------------------- Coq emission
@@ -383,12 +414,23 @@ def _dump_term(d, case):
 
 def emit_case(case, out):
     if "exc" in out: return "false"
-    if case["kind"] == "igmap": return None
     if '"-inf"' in __import__("json").dumps(out): return None          # exp() overflow on absurd negative gaps: predicate only
+    if case["kind"] == "igmap":
+        if isinstance(out["re"], dict) or isinstance(out["re_congruent"], dict): return "false"
+        def view(d):
+            return "(%s, %s, %s, (%s, %s, %s, %s))" % ((E.lst(d["chr"], E.z), E.lst(d["phy"], E.z), E.lst(d["gen"], _ext))
+                                                   + tuple(E.lst(m if m is not None else [], E.z) for m in d["meta"]))
+        b, a = out["igmap"], out["igmap_after"]
+        return "(check_igmap_reuse true false %s %s %s %s %s %s %s)" % (_raw(case), _pairs(case["query"]), view(b), E.b(b["grouped"]),
+                                                                      E.lst(out["re"], _ext), view(a), E.b(a["grouped"]))
     if case["kind"] == "rmdisc":
-        t1, _f = _dump_term(out["map"], case)
-        return "(check_rmdisc false %s %s %s %s %s %s)" % (_raw(case), _pairs(case["query"]), t1, E.b(out["is_congruent"]),
-                                                       E.lst(out["stale"], _ext), E.lst(out["rebuilt"], _ext))
+        def one(o):
+            t1, _f = _dump_term(o["map"], case)
+            return "check_rmdisc false %s %s %s %s %s %s %s" % (_raw(case), _pairs(case["query"]), t1, E.b(o["is_congruent"]), E.b(o["warned"]),
+                                                            E.lst(o["direct"], _ext), E.lst(o["rebuilt"], _ext))
+        return "(%s\n   && %s\n   && extl_close %s (rd_interp_genpos (gm_rows (to_rows false %s)) %s) && %s)" % (
+            one(out), one(out["via_remove"]), E.lst(out["ungrouped"]["direct"], _ext), _raw(case), _pairs(case["query"]),
+            E.b(not out["ungrouped"]["grouped"]))
     if case["kind"] == "mapfn":
         k = _kind(case["fn"])
         return "(check_mapfn %s %s %s %s %s %s %s\n   && fl_eqb (map cM2d_f %s) %s && extll_eqb [%s] %s)" % (
@@ -429,8 +471,9 @@ def emit_case(case, out):
         pay_out = [[ig["stop"][i], ig["name"][i] if ig["name"] is not None else -1, ig["fncode"][i] if ig["fncode"] is not None else -1] for i in range(len(ig["chr"]))]
     else:
         pay_in = pay_out = []
-    parts.append("check_igmap %s %s raw q %s (%s, %s, %s, %s) %s %s" % (exact, cm, E.lst2(pay_in, E.z), E.lst(ig["chr"], E.z), E.lst(ig["phy"], E.z),
-                 "qg" if ig["gen"] == out["q_gen"] else E.lst(ig["gen"], _ext), igmeta, E.lst2(pay_out, E.z), E.lst(out["igmap_spline_keys"], E.z)))
+    parts.append("check_igmap %s %s raw q %s (%s, %s, %s, %s) %s %s %s" % (exact, cm, E.lst2(pay_in, E.z), E.lst(ig["chr"], E.z), E.lst(ig["phy"], E.z),
+                 "qg" if ig["gen"] == out["q_gen"] else E.lst(ig["gen"], _ext), igmeta, E.b(ig["grouped"]), E.lst2(pay_out, E.z),
+                 E.lst(out["igmap_spline_keys"], E.z)))
     s1, s2, q1, q2 = case["s1"], case["s2"], case["q1"], case["q2"]
     parts.append("check_gdist_g %s %s raw None None None None None None %s %s %s %s" % (exact, cm, E.lst(out["g1"], _ext), E.lst(out["g1"], _fl),
                  E.lst2(out["g2"], _ext), E.lst2(out["g2"], _fl)))
@@ -608,6 +651,8 @@ def _pred_gmap(case, out):
     if [list(t) for t in zip(ig["chr"], ig["phy"])] != [list(q) for q in case["query"]] or ig["gen"] != out["q_gen"]:
         bad.append("interp_gmap: markers/positions of the new map differ from interp_genpos")
     if out["igmap_spline_keys"] != names: bad.append("interp_gmap: spline not carried over")
+    if ig["grouped"] and not _own_meta(ig): bad.append("interp_gmap: the new map claims to be grouped but its group metadata does not describe its own markers")
+    if not ig["grouped"] and any(v is not None for v in ig["meta"]): bad.append("interp_gmap: the new map is not grouped but carries group metadata")
     if cls == "ext" and (ig["stop"] != [q[1] + 1 for q in case["query"]] or ig["name"] != list(range(len(case["query"]))) or ig["fncode"] is not None):
         bad.append("interp_gmap: vrnt_stop/vrnt_name/vrnt_fncode of the new map are not the ones supplied")
     # distances from physical positions
@@ -656,38 +701,85 @@ def _pred_gmap(case, out):
             if not _close(pv, want, 2.0 ** -44): bad.append("%s: %r for distance %r, %s gives %r" % (name, pv, dv, case["fn"], want)); break
     return bad
 
+def _own_meta(d):
+    """does the grouping metadata of a dumped map describe its own (sorted) chromosome array?"""
+    ch = d["chr"]
+    names = sorted(set(ch))
+    lens = [ch.count(c) for c in names]
+    stix = [ch.index(c) for c in names]
+    return ch == sorted(ch) and d["meta"] == [names, stix, [a + b for a, b in zip(stix, lens)], lens]
+
 def _pred_igmap(case, out):
+    """the map returned by interp_gmap is a genetic map of its own: it can be asked for its congruence and interpolates like
+    its source; whenever it says it is grouped, the grouping describes its own markers"""
     bad = []
     ig = out["igmap"]
+    qs = [tuple(q) for q in case["query"]]
+    if [tuple(t) for t in zip(ig["chr"], ig["phy"])] != qs or ig["gen"] != out["q_gen"]:
+        bad.append("interp_gmap result: markers/positions of the new map differ from the query / interp_genpos")
     if isinstance(out["re"], dict): bad.append("interp_gmap result: interp_genpos on the returned map raises %s" % out["re"]["exc"])
     elif out["re"] != out["q_gen"]: bad.append("interp_gmap result: interpolates differently from its source map")
+    qg = [xf(v) for v in out["q_gen"]]
+    order = sorted(range(len(qs)), key=lambda i: qs[i])          # equal (chromosome, position) pairs carry equal positions
+    sq = [qs[i] for i in order]; sg = [qg[i] for i in order]
+    want_c = all(sq[i - 1][0] != sq[i][0] or sg[i - 1] <= sg[i] for i in range(1, len(sq)))
     if isinstance(out["re_congruent"], dict): bad.append("interp_gmap result: is_congruent on the returned map raises %s" % out["re_congruent"]["exc"])
-    ch = ig["chr"]
-    if ig["grouped"]:
-        names = sorted(set(ch))
-        ok = ch == sorted(ch) and ig["meta"][0] == names and ig["meta"][3] == [ch.count(c) for c in names]
-        if not ok: bad.append("interp_gmap result: claims to be grouped but its group metadata is that of the source map")
+    elif out["re_congruent"] != want_c: bad.append("interp_gmap result: is_congruent() = %r, its own markers say %r" % (out["re_congruent"], want_c))
+    if ig["grouped"] and not _own_meta(ig): bad.append("interp_gmap result: claims to be grouped but its group metadata does not describe its own markers")
+    if not ig["grouped"] and any(v is not None for v in ig["meta"]): bad.append("interp_gmap result: not grouped but carries group metadata")
+    af = out["igmap_after"]
+    same = lambda a, b: len(a) == len(b) and all((math.isnan(x) and math.isnan(y)) or x == y for x, y in zip(a, b))
+    if not isinstance(out["re_congruent"], dict):
+        if [tuple(t) for t in zip(af["chr"], af["phy"])] != sq or not same([xf(v) for v in af["gen"]], sg):
+            bad.append("interp_gmap result: after its first use the new map does not hold its own markers sorted by (chromosome, physical)")
+        if not af["grouped"] or not _own_meta(af): bad.append("interp_gmap result: after its first use the group metadata does not describe its own markers")
+        if case["cls"] == "ext" and af["stop"] != [x + 1 for _, x in sq]: bad.append("interp_gmap result: vrnt_stop did not travel with its markers")
+    if out["source_after"]["nvrnt"] != len(case["rows"]) or not out["source_after"]["grouped"] or out["source_q_gen_after"] != out["q_gen"]:
+        bad.append("interp_gmap result: using the new map changed its source map")
     return bad
 
 def _pred_rmdisc(case, out):
-    """after remove_discrepancies: if the reduced map reports itself congruent, interpolation must follow the chords of the
-    reduced map and preserve order; after build_spline() it must do so in any case"""
+    """after remove_discrepancies() (and after the same reduction through remove()): the flagged markers are gone, the rest is
+    sorted and grouped, interpolation follows the chords between the flanking markers of the reduced map at once and after
+    build_spline(), returns the stored position at the remaining markers, and preserves order if the reduced map is congruent"""
     bad = []
-    m = out["map"]
-    knots = {}
-    for c, x, g in zip(m["chr"], m["phy"], m["gen"]): knots.setdefault(c, []).append((x, Fraction(xf(g))))
-    def chk(label, vals, prefix):
-        ok = True
-        for (c, x), v in zip(case["query"], vals):
-            v = xf(v)
-            if c not in knots or len(knots[c]) < 2: continue
-            want = _interp_exact(knots[c], x)
-            if math.isnan(v) or abs(Fraction(v) - want) > Fraction(1, 2 ** 36) * (1 + abs(want)):
-                bad.append("%s %s: position of (%d,%d) = %r, the flanking markers of the reduced map give %r" % (prefix, label, c, x, v, float(want))); ok = False; break
-        return ok
-    if out["is_congruent"] and not out["warned"]:
-        chk("interp_genpos after remove_discrepancies (map reports congruent, no warning)", out["stale"], "stale spline:")
-    chk("interp_genpos after remove_discrepancies + build_spline", out["rebuilt"], "rebuilt spline:")
+    rows = sorted((c, x, xf(g)) for c, x, g in case["rows"])
+    want = [r for i, r in enumerate(rows) if i == 0 or rows[i - 1][0] != r[0] or rows[i - 1][2] <= r[2]]
+    for label, o in (("remove_discrepancies", out), ("remove(flagged)", out["via_remove"])):
+        m = o["map"]
+        got = list(zip(m["chr"], m["phy"], [xf(v) for v in m["gen"]]))
+        if got != want: bad.append("%s: the reduced map is not the sorted list of markers flagged congruent" % label)
+        if not m["grouped"] or not _own_meta(m): bad.append("%s: group metadata does not describe the reduced map" % label)
+        cong = all(got[i - 1][0] != got[i][0] or got[i - 1][2] <= got[i][2] for i in range(1, len(got)))
+        if o["is_congruent"] != cong or o["warned"] != (not cong): bad.append("%s: is_congruent()/warning of the reduced map" % label)
+        knots = {}
+        for c, x, g in got: knots.setdefault(c, []).append((x, Fraction(g)))
+        if o["spline_keys"] != sorted(knots): bad.append("%s: the spline does not cover exactly the chromosomes of the reduced map" % label)
+        if len(o["own"]) != len(got) or not all(_close(xf(a), g, 2.0 ** -44) for a, (_, _, g) in zip(o["own"], got)):
+            bad.append("%s: interpolation at the remaining markers does not return their stored positions" % label)
+        def chk(what, vals):
+            for (c, x), v in zip(case["query"], vals):
+                v = xf(v)
+                if c not in knots:
+                    if not math.isnan(v): bad.append("%s %s: chromosome %d is absent from the reduced map but the position is %r" % (label, what, c, v))
+                    continue
+                if len(knots[c]) < 2: continue
+                w = _interp_exact(knots[c], x)
+                if math.isnan(v) or abs(Fraction(v) - w) > Fraction(1, 2 ** 36) * (1 + abs(w)):
+                    bad.append("%s %s: position of (%d,%d) = %r, the flanking markers of the reduced map give %r" % (label, what, c, x, v, float(w))); break
+        chk("interp_genpos right after the reduction", o["direct"])
+        chk("interp_genpos after build_spline()", o["rebuilt"])
+        if cong:
+            dv = [xf(v) for v in o["direct"]]
+            for (c1, x1), v1 in zip(case["query"], dv):
+                for (c2, x2), v2 in zip(case["query"], dv):
+                    if c1 == c2 and c1 in knots and x1 <= x2 and not (v1 <= v2 + 2.0 ** -40 * (1 + abs(v2))):
+                        bad.append("%s: the reduced map is congruent but interpolation is not order-preserving: (%d,%d)->%r, (%d,%d)->%r" % (label, c1, x1, v1, c2, x2, v2))
+    ug = out["ungrouped"]
+    if ug["grouped"] or ug["rows"] != [[c, x, g] for c, x, g in case["rows"] if (c, x, xf(g)) in want]:
+        bad.append("remove() on an ungrouped map: the remaining arrays are not the supplied rows without the removed markers, in the supplied order")
+    if ug["direct"] != out["direct"]: bad.append("remove() on an ungrouped map: interpolation differs from the grouped map reduced to the same markers")
+    if out["via_remove"] != {k: v for k, v in out.items() if k not in ("via_remove", "ungrouped")}: bad.append("remove(flagged markers) and remove_discrepancies() leave different maps / splines")
     return bad
 
 def pred(case, out):
@@ -721,11 +813,7 @@ def describe(case, out):
             "sliced": case["s1"] != [None, None] or case["s2"] != [None] * 4, "raised": "exc" in out}
 
 def classify(case, out, clauses):
-    if case["kind"] == "igmap" and clauses and all(c.startswith("interp_gmap result:") for c in clauses):
-        return "C11-interp-gmap-stale-groups"
-    if case["kind"] == "rmdisc" and clauses and all(c.startswith("stale spline:") for c in clauses):
-        return "C11-stale-spline-after-remove-discrepancies"
-    return None
+    return None          # no open findings: the two former ones (interp_gmap group metadata, stale spline) are repaired
 
 def shrink(case, fails):
     """drop query markers, then whole chromosomes, while the predicate still fails"""
